@@ -27,18 +27,18 @@ Print Assumptions C15_close_completes.
 
 (* (3) A redirect that names a node the proxy does not know, or cannot connect to, completes the
    request with an error instead of dropping it. *)
-Theorem C15_redirect_unknown_node : forall st f mid addr,
+Theorem C15_redirect_unknown_node : forall st f mid ty addr,
   (exists m, lookup mid (msgs st) = Some m) ->
   find_pool (mark_moved st mid (frag_slot f)) addr = None ->
-  msg_done (on_moved st f mid addr) mid = true /\ forall slot, frag_done (on_moved st f mid addr) mid slot = true.
+  msg_done (on_moved st f mid ty addr) mid = true /\ forall slot, frag_done (on_moved st f mid ty addr) mid slot = true.
 Proof. exact redirect_unknown_node. Qed.
 Print Assumptions C15_redirect_unknown_node.
 
-Theorem C15_redirect_no_connection : forall st f mid addr p st1,
+Theorem C15_redirect_no_connection : forall st f mid ty addr p st1,
   (exists m, lookup mid (msgs st) = Some m) ->
   find_pool (mark_moved st mid (frag_slot f)) addr = Some p ->
   pool_get (mark_moved st mid (frag_slot f)) p = (st1, None) ->
-  msg_done (on_moved st f mid addr) mid = true.
+  msg_done (on_moved st f mid ty addr) mid = true.
 Proof. exact redirect_no_connection. Qed.
 Print Assumptions C15_redirect_no_connection.
 
@@ -59,6 +59,25 @@ Theorem C15_pool_returns_live_connection : forall cfg pools slots evs st p st' s
 Proof. exact pool_get_open. Qed.
 Print Assumptions C15_pool_returns_live_connection.
 
+(* (6) A node that is removed from the topology, or changes role: the ticker schedules the closing
+   of every connection of its pool and drops the pool (or restarts it without connections) in the same
+   step; when the close task runs, (2) completes every request that had a fragment there.  Pools of
+   nodes that stay as they were are not touched. *)
+Theorem C15_topology_schedules_close : forall st nodes newslots p s,
+  In p (pools st) -> In s (pp_conns p) ->
+  node_role nodes (pp_addr p) <> Some (pp_slave p) ->
+  In (TClose s) (tasks (apply_topology st nodes newslots)) /\
+  (forall q, In q (topology_pool nodes p) -> pp_conns q = []).
+Proof. exact topology_schedules_close. Qed.
+Print Assumptions C15_topology_schedules_close.
+
+Theorem C15_topology_keeps_unchanged_pools : forall st nodes newslots p,
+  In p (pools st) -> node_role nodes (pp_addr p) = Some (pp_slave p) ->
+  In p (pools (apply_topology st nodes newslots)) /\
+  (forall s, In s (pp_conns p) -> ~ In s (topology_closing nodes p)).
+Proof. exact topology_keeps_unchanged_pools. Qed.
+Print Assumptions C15_topology_keeps_unchanged_pools.
+
 Theorem C15_step_invariant : forall st e st', Both st -> step st e = ROk st' -> Both st'.
 Proof. exact step_both. Qed.
 Print Assumptions C15_step_invariant.
@@ -72,4 +91,13 @@ Example C15_witness :
   w_got (run (init_state w_cfg w_pools w_slots)
            (evs ++ [EClientData 0 w_get []; ETasks []; EServerData 1 (enc_bulk (bs "v"))])) 0
     = ErrUnKnownProxyPoolConnError ++ enc_bulk (bs "v").
+Proof. cbv zeta. split; vm_compute; reflexivity. Qed.
+
+(* the node is removed from the topology while a request is in flight on its connection: the client
+   gets the error when the scheduled close runs *)
+Example C15_topology_witness :
+  let evs := [EConnect 0 true; EClientData 0 w_get []; ETasks []; ETopology [] []; ETasks []] in
+  w_got (run (init_state w_cfg w_pools w_slots) evs) 0 = ErrUnKnownProxyPoolConnError /\
+  w_got (run (init_state w_cfg w_pools w_slots) (evs ++ [EClientData 0 w_get []])) 0
+    = ErrUnKnownProxyPoolConnError ++ ErrUnKnownSlot.
 Proof. cbv zeta. split; vm_compute; reflexivity. Qed.
